@@ -278,6 +278,24 @@ def faults():
                     m.o = owner()
                 return m
             yield (f"owner/sibling-module-signal/{order}/{how}", own_sibling)
+    # ... a signal (port, bundle instance) that LOST its name to another object: it is no longer the module's
+    for kind in ("signal", "port", "bundle"):
+        for where in ("direct", "slice", "concat"):
+            def displaced(kind=kind, where=where):
+                m = base()
+                old = {"signal": lambda: h.Signal(width=2), "port": lambda: h.Port(width=2), "bundle": lambda: B2()()}[kind]()
+                m.a = old
+                m.a = h.Signal(width=2)                    # `old` loses its name
+                if kind == "bundle":
+                    m.c = child_with_bundle(B2())(q=old)
+                elif where == "direct":
+                    m.i = L()(a=old, b=m.s1)
+                elif where == "slice":
+                    m.i = L()(a=m.s2, b=old[0])
+                else:
+                    m.i = L()(a=h.Concat(old[0], m.s1), b=m.s1)
+                return m
+            yield (f"owner/displaced-{kind}/{where}", displaced)
     # ... a COPY of one of the module's own signals, never added to it (copies start out owned by nobody)
     import copy as _copy
     for how in ("copy", "deepcopy"):
